@@ -30,14 +30,17 @@ func init() {
 			"{tail: the last 1..3 submitted ids are held so that all channels are empty, mid: an earlier id is held and later ones queue up in the apply stage, " +
 			"queue: every worker of the stage is held with more blocks waiting in the channel in front of it, chan: the apply runner is held with later blocks waiting in the decoded/validated channel} " +
 			"x {drain called once the pipeline is at rest (every pipeline goroutine parked), drain called right after the last Submit} x validation stage off/on x {long, cancelled} drain context, " +
-			"4..24 unique corpus blocks (some corrupted), 1..4 workers per stage from the PRNG; holds end when WaitForDrain returns or after 150 ms; " +
+			"plus the failed-Submit-then-drain family: pipeline (buffer 1, 1 decode worker) full behind a gated ApplyFunc, 1..3 Submit calls fail on the full input channel " +
+			"{context cancelled once the call is seen parked in Submit, 5 ms deadline, several callers inside Submit at once}, gate opened, all accepted blocks complete, then 1..f further blocks are submitted, " +
+			"the first held at {decode.afterTake, apply.afterRecv, inside ApplyFunc}, drain called at rest; " +
+			"4..24 unique corpus blocks (some corrupted), 1..4 workers per stage from the PRNG; holds end when WaitForDrain returns or after 100 ms; " +
 			"a scenario is non-trivial when a hold was in force between the WaitForDrain call and its return; distinct by (point, placement, mode, validation, ctx, n, workers, held ids)",
 		MinNontrivial: 30,
 		RaceAnchors:   []string{"pipeline.(*ApplyStage)", "pipeline.(*BlockPipeline)", "pipeline.(*StageWorkerPool)", "pipeline.(*ApplyStageRunner)"},
 		Assumptions: []string{
 			"a block counts as finished when its ApplyFunc call has returned (good blocks) or the failing stage's Process has returned (blocks that fail decode / validation)",
 			"an unfinished block whose last observed hook point leaves its position ambiguous (between a worker's Process and the next stage's take) is judged only when the pipeline was at rest at the drain call and no hold had timed out; otherwise it is counted as not judged",
-			"the 150 ms hold and the 10 ms drain poll are workload parameters; the oracle never reads a clock",
+			"the 100 ms hold and the 10 ms drain poll are workload parameters; the oracle never reads a clock",
 		},
 		QuickTimeout:    600,
 		ThoroughTimeout: 4 * 3600,
@@ -45,7 +48,7 @@ func init() {
 	})
 }
 
-const holdTimeout = 150 * time.Millisecond
+const holdTimeout = 100 * time.Millisecond
 
 var errApply = errors.New("harness: apply refused")
 
@@ -62,6 +65,7 @@ type scen struct {
 	Held      []int  `json:"held_ids"`
 
 	pt    uint8
+	fs    *fsSpec // non-nil: failed-Submit-then-drain family (failedsubmit.go)
 	blk   []pipex.Blk
 	class []pipex.Class
 	held  map[int]bool
@@ -156,6 +160,7 @@ type outcome struct {
 	completion string
 	stopOK     bool
 	timedOut   bool // some hold ended by timeout
+	failed     int  // Submit calls that returned an error (failed-Submit family)
 }
 
 func execute(f *pipex.Factory, s *scen) *outcome {
@@ -472,8 +477,20 @@ func judge(c *core.Ctx, s *scen, out *outcome) {
 		c.Count("events_"+pipex.KindNames[k], v)
 	}
 	c.Count("scenarios", 1)
+	if s.fs != nil {
+		c.Count("failed_submit_scenarios", 1)
+		c.Count("failed_submit_scenarios_"+s.fs.Mode, 1)
+		c.Count("failed_submits_before_drain", out.failed)
+		if out.failed == 0 {
+			c.Count("failed_submit_scenarios_without_failure", 1)
+		}
+	}
 	c.Count("point_"+s.Point, 1)
-	c.Count("placement_"+s.Placement, 1)
+	if s.fs != nil {
+		c.Count("placement_after-failed-submit", 1)
+	} else {
+		c.Count("placement_"+s.Placement, 1)
+	}
 	for di, d := range drains {
 		if d.ret == 0 {
 			continue
@@ -521,6 +538,9 @@ func judge(c *core.Ctx, s *scen, out *outcome) {
 				c.Count("unfinished_ambiguous_not_judged", 1)
 				continue
 			}
+			if s.fs != nil {
+				loc.key += ":after-failed-submit"
+			}
 			if reported[loc.key] {
 				continue
 			}
@@ -547,6 +567,31 @@ func judge(c *core.Ctx, s *scen, out *outcome) {
 	}
 	if c.SampleN() < 6 && s.Idx%11 == 0 {
 		c.Sample(map[string]any{"scenario": s, "events": pipex.Strings(evs, 40)})
+	}
+}
+
+// runFailedSubmit enumerates the failed-Submit-then-drain family.
+func runFailedSubmit(c *core.Ctx, f *pipex.Factory, idx *int) {
+	pts := []uint8{pipex.PtDecodeTake, pipex.PtApplyRecv, pipex.PtApplyFunc}
+	reps := c.N(1, 30)
+	for rep := 0; rep < reps; rep++ {
+		for _, mode := range []string{"cancel", "deadline", "concurrent"} {
+			for fl := 1; fl <= 3; fl++ {
+				for pi, pt := range pts {
+					r := c.Rand("failed-submit", rep, mode, fl, pi)
+					sp := fsSpec{Mode: mode, Failures: fl, InFlight: r.Range(1, fl)}
+					if pt == pipex.PtDecodeTake && sp.InFlight > 2 {
+						sp.InFlight = 2 // held decode worker + submit channel of size 1: a third Submit would block
+					}
+					s := buildFS(f, *idx, pt, sp, r)
+					*idx++
+					c.Journal("C43 scenario %d failed-submit mode=%s f=%d inflight=%d point=%s", s.Idx, mode, fl, sp.InFlight, s.Point)
+					out := executeFS(s)
+					c.Eval()
+					judge(c, s, out)
+				}
+			}
+		}
 	}
 }
 
@@ -599,4 +644,5 @@ func run(c *core.Ctx) {
 			}
 		}
 	}
+	runFailedSubmit(c, f, &idx)
 }
